@@ -5,11 +5,24 @@ V = os.path.dirname(os.path.dirname(os.path.abspath(__file__)))
 
 # strata added in later sessions (appended to the texts below)
 ADDED = {
- "C02": "stale-files histories (the same paths / entry name compiled first with other contents), other-option prefixes, @import / meta.load-css projects, generated programs as inputs",
+ "C01": "invalid-UTF-8 family (every kind of ill-formed sequence x preceding text x following text or end of file x route: entry, @import, @use, @forward, meta.load-css x extension)",
+ "C02": "stale-files / other-layout histories (the same paths or entry name compiled first with other contents, with files missing, with load paths permuted or dropped), other-option prefixes, @import / meta.load-css / layered projects (one module name beside the importer and in two load paths), generated programs as inputs",
  "C03": "binary operations are printed relying on operator precedence and left associativity (not only fully parenthesised); @each destructuring over lists of lists, self-recursive functions, `!default !global`",
- "C04": "`&` as the argument of :not()/:is()/:where(), `&` followed by pseudo-element/attribute/negation suffixes, two suffixed `&` in one selector, and the selector form `@at-root <selector> {...}`",
+ "C04": "`&` as the argument of :not()/:is()/:where(), `&` followed by pseudo-element/attribute/negation suffixes, two suffixed `&` in one selector, child lists whose members multiply differently against the parent list, and the selector form `@at-root <selector> {...}`",
+ "C05": "@supports conditions and media query lists drawn from their grammars (negation, and/or chains, nested groups, ranges, functions, interpolation)",
+ "C06": "statement shapes include the @supports / media query grammars of C05",
  "C07": "every value is also printed through interpolation, inspect(), string concatenation, inside lists and maps and with a unit (probe-observed text vs the correctly rounded decimal)",
+ "C08": "operations between two compound quantities whose factors are pairwise convertible in position (converted result or error, never the raw magnitudes)",
+ "C10": "second law through trimming: a multi-compound extender that owns a simple selector must keep its generated selector unless what covers it is at least as specific (covering-extender family)",
+ "C11": "selector-unify results with four compounds are judged on four-element DOMs also in the quick tier",
+ "C12": "members whose own names start with the prefix they are forwarded under (stripped exactly once), forwarded mixins",
+ "C13": "plain-CSS import family (url(), http(s)://, //, .css, media / supports modifiers, mixed lists) beside loadable Sass files of the same name",
  "C14": "a share of the calls passes trailing arguments by their documented parameter names",
+ "C15": "hue-turn family: periodicity, adjust-color vs adjust-hue, hue read-back range, turns beyond a full circle in both directions",
+ "C16": "n-ary min/max/clamp with exactly one provably incompatible pair at any positions",
+ "C18": "Sass-only construct x embedding context x preceding plain-CSS statement family (1234 inputs) that CSS mode must reject",
+ "C19": "expected Logger lines also under CRLF and CR line endings (CR-only line numbering is a recorded known finding)",
+ "C20": "large outputs straddling the usual buffer sizes with preserved multi-line comments, to stdout and to files",
 }
 
 CHECKS = {
